@@ -311,4 +311,67 @@ theorem stringProp_complete (n : Node) (c : StrClass) (v : PStr) (h : SoleChain 
   | here c v => simp [stringProp]
   | down _ ih => simp [stringProp, stringPropL, ih]
 
+/-! ### copies, class numbering -/
+
+mutual
+theorem copyNode_id (main : List StrClass) (n : Node) : copyNode main n = n := by
+  cases n with
+  | str c v => simp [copyNode]
+  | tag nm i ks =>
+    simp only [copyNode, copySelfInteresting, tagInitInteresting]
+    rw [copyNodeL_id main ks]
+theorem copyNodeL_id (main : List StrClass) (l : List Node) : copyNodeL main l = l := by
+  cases l with
+  | nil => simp [copyNodeL]
+  | cons k ks => simp only [copyNodeL]; rw [copyNode_id main k, copyNodeL_id main ks]
+end
+
+theorem ofCode_code (c : StrClass) : StrClass.ofCode c.code = c := by
+  cases c with
+  | other k => simp only [StrClass.code]; rw [Nat.add_comm]; rfl
+  | _ => rfl
+
+theorem code_eq_zero (c : StrClass) : c.code = 0 ↔ c = .navigableString := by
+  cases c <;> simp [StrClass.code]
+
+theorem code_inj (a b : StrClass) (h : a.code = b.code) : a = b := by
+  rw [← ofCode_code a, ← ofCode_code b, h]
+
+theorem lookup_mem {α : Type} [BEq α] [LawfulBEq α] {β : Type} (k : α) (v : β) :
+    ∀ (l : List (α × β)), l.lookup k = some v → (k, v) ∈ l := by
+  intro l
+  induction l with
+  | nil => intro h; simp [List.lookup] at h
+  | cons a l ih =>
+    obtain ⟨k', d⟩ := a
+    intro h
+    simp only [List.lookup] at h
+    split at h
+    · rename_i heq
+      have : k = k' := by simpa using heq
+      simp_all
+    · exact List.mem_cons_of_mem _ (ih h)
+
+/-- the innermost open container element, found through a split of the list of open names -/
+theorem containerStackTop_split (cont : List (PStr × StrClass)) (pre : List PStr) (nm : PStr) (post : List PStr)
+    (c : StrClass) (hpre : ∀ g ∈ pre, cont.lookup g = none) (hnm : cont.lookup nm = some c) :
+    containerStackTop cont (pre ++ nm :: post) = some nm := by
+  unfold containerStackTop
+  induction pre with
+  | nil => simp [hnm]
+  | cons g gs ih =>
+    have hg := hpre g (by simp)
+    simp only [List.cons_append, List.find?, hg, Option.isSome_none]
+    exact ih (fun x hx => hpre x (by simp [hx]))
+
+theorem containerStackTop_none (cont : List (PStr × StrClass)) (names : List PStr)
+    (h : ∀ g ∈ names, cont.lookup g = none) : containerStackTop cont names = none := by
+  unfold containerStackTop
+  induction names with
+  | nil => rfl
+  | cons g gs ih =>
+    have hg := h g (by simp)
+    simp only [List.find?, hg, Option.isSome_none]
+    exact ih (fun x hx => h x (by simp [hx]))
+
 end BS.Text
